@@ -769,4 +769,175 @@ theorem push_spec (q : Queue) (inv : QueueInv q) (it : Item) (lvl : Nat) (hl : 1
 theorem queueInv_new (cap : Int) : QueueInv (Queue.new cap) := by
   refine ⟨lanesInv_new, ?_, ?_, ?_, ?_, ?_, ?_⟩ <;> simp [Queue.new, SkipList.new, Queue.items]
 
+/-! ### runs: every op sequence, every level choice -/
+
+inductive QOp where
+  | push (it : Item) (lvl : Nat)
+  | remove (k : Nat)
+
+/-- `randomLevel` only ever returns levels ≥ 1 -/
+def QOp.levelOk : QOp → Prop
+  | .push _ lvl => 1 ≤ lvl
+  | .remove _ => True
+
+def stepQ (q : Queue) : QOp → Queue × Res
+  | .push it lvl => q.push it lvl
+  | .remove k => q.remove k
+
+/-- the reference ignores the level argument -/
+def stepSpec (cap : Int) (l : List Item) : QOp → List Item × Res
+  | .push it _ => specPush cap l it
+  | .remove k => (specRemove l k, if l.any (fun x => decide (x.id = k)) then Res.ok else Res.notfound)
+
+def runQ (q : Queue) : List QOp → Queue × List Res
+  | [] => (q, [])
+  | o :: rest => let r := stepQ q o; let rr := runQ r.1 rest; (rr.1, r.2 :: rr.2)
+
+def runSpec (cap : Int) (l : List Item) : List QOp → List Item × List Res
+  | [] => (l, [])
+  | o :: rest => let r := stepSpec cap l o; let rr := runSpec cap r.1 rest; (rr.1, r.2 :: rr.2)
+
+theorem step_refines (q : Queue) (inv : QueueInv q) (o : QOp) (ho : o.levelOk) :
+    QueueInv (stepQ q o).1 ∧ (stepQ q o).1.maxsize = q.maxsize ∧
+    ((stepQ q o).1.items, (stepQ q o).2) = stepSpec q.maxsize q.items o := by
+  cases o with
+  | push it lvl =>
+    obtain ⟨h1, h2, h3⟩ := push_spec q inv it lvl ho
+    exact ⟨h1, h3, h2⟩
+  | remove k =>
+    obtain ⟨h1, h2, h3, h4⟩ := remove_spec q inv k
+    refine ⟨h1, h3, ?_⟩
+    show ((q.remove k).1.items, (q.remove k).2) = _
+    rw [h2, h4]; rfl
+
+theorem run_refines (q : Queue) (inv : QueueInv q) (ops : List QOp) (h : ∀ o ∈ ops, o.levelOk) :
+    QueueInv (runQ q ops).1 ∧ (runQ q ops).1.maxsize = q.maxsize ∧
+    ((runQ q ops).1.items, (runQ q ops).2) = runSpec q.maxsize q.items ops := by
+  induction ops generalizing q with
+  | nil => exact ⟨inv, rfl, rfl⟩
+  | cons o rest ih =>
+    obtain ⟨h1, h2, h3⟩ := step_refines q inv o (h o (by simp))
+    obtain ⟨i1, i2, i3⟩ := ih (stepQ q o).1 h1 (fun x hx => h x (by simp [hx]))
+    have e1 : (stepQ q o).1.items = (stepSpec q.maxsize q.items o).1 := by rw [← h3]
+    have e2 : (stepQ q o).2 = (stepSpec q.maxsize q.items o).2 := by rw [← h3]
+    refine ⟨i1, by rw [← h2]; exact i2, ?_⟩
+    show ((runQ (stepQ q o).1 rest).1.items, (stepQ q o).2 :: (runQ (stepQ q o).1 rest).2) = _
+    have e3 : (runQ (stepQ q o).1 rest).1.items = (runSpec q.maxsize (stepSpec q.maxsize q.items o).1 rest).1 := by
+      rw [← e1, ← h2, ← i3]
+    have e4 : (runQ (stepQ q o).1 rest).2 = (runSpec q.maxsize (stepSpec q.maxsize q.items o).1 rest).2 := by
+      rw [← e1, ← h2, ← i3]
+    rw [e2, e3, e4]; rfl
+
+/-! ### facts about the reference list -/
+
+def DescItems (l : List Item) : Prop := l.Pairwise (fun a b => a.score ≥ b.score)
+
+theorem dropWhile_head_fails {p : α → Bool} (l : List α) (d : α) (rest : List α)
+    (h : l.dropWhile p = d :: rest) : p d = false := by
+  induction l with
+  | nil => simp at h
+  | cons a xs ih =>
+    rw [List.dropWhile_cons] at h
+    split at h
+    · exact ih h
+    · rename_i hp
+      injection h with h1 _
+      subst h1
+      simpa using hp
+
+theorem specInsert_split (l : List Item) (hd : DescItems l) (it : Item) :
+    ∃ l₁ l₂, l = l₁ ++ l₂ ∧ specInsert l it = l₁ ++ it :: l₂ ∧
+      (∀ x ∈ l₁, x.score ≥ it.score) ∧ (∀ x ∈ l₂, x.score < it.score) := by
+  refine ⟨l.takeWhile (fun x => decide (x.score ≥ it.score)), l.dropWhile (fun x => decide (x.score ≥ it.score)),
+    (List.takeWhile_append_dropWhile).symm, rfl, ?_, ?_⟩
+  · intro x hx; simpa using (mem_takeWhile_imp hx).1
+  · -- the suffix starts with a smaller item and the list is descending
+    intro x hx
+    generalize hD : l.dropWhile (fun x => decide (x.score ≥ it.score)) = D at hx
+    have hsub : D.Sublist l := by rw [← hD]; exact List.dropWhile_sublist _
+    have hdD : DescItems D := List.Pairwise.sublist hsub hd
+    cases D with
+    | nil => cases hx
+    | cons d rest =>
+      have hhead := dropWhile_head_fails l d rest hD
+      have hds : d.score < it.score := by simpa using hhead
+      rcases List.mem_cons.mp hx with rfl | hx
+      · exact hds
+      · have := (List.pairwise_cons.mp hdD).1 x hx; omega
+
+theorem specInsert_desc (l : List Item) (hd : DescItems l) (it : Item) : DescItems (specInsert l it) := by
+  obtain ⟨l₁, l₂, hl, hs, h1, h2⟩ := specInsert_split l hd it
+  rw [hs]
+  unfold DescItems at *
+  rw [hl, List.pairwise_append] at hd
+  rw [List.pairwise_append]
+  refine ⟨hd.1, ?_, ?_⟩
+  · rw [List.pairwise_cons]
+    exact ⟨fun b hb => by have := h2 b hb; omega, hd.2.1⟩
+  · intro a ha x hx
+    rcases List.mem_cons.mp hx with rfl | hx
+    · exact h1 a ha
+    · exact hd.2.2 a ha x hx
+
+theorem specPush_desc (cap : Int) (l : List Item) (hd : DescItems l) (it : Item) :
+    DescItems (specPush cap l it).1 := by
+  unfold specPush
+  split
+  · exact hd
+  · split
+    · split
+      · exact hd
+      · split
+        · exact specInsert_desc _ (List.Pairwise.sublist (List.dropLast_sublist _) hd) _
+        · exact hd
+    · exact specInsert_desc _ hd _
+
+theorem stepSpec_desc (cap : Int) (l : List Item) (hd : DescItems l) (o : QOp) :
+    DescItems (stepSpec cap l o).1 := by
+  cases o with
+  | push it _ => exact specPush_desc cap l hd it
+  | remove k => exact List.Pairwise.sublist List.eraseP_sublist hd
+
+theorem runSpec_desc (cap : Int) (l : List Item) (hd : DescItems l) (ops : List QOp) :
+    DescItems (runSpec cap l ops).1 := by
+  induction ops generalizing l with
+  | nil => exact hd
+  | cons o rest ih => exact ih _ (stepSpec_desc cap l hd o)
+
+theorem specInsert_length (l : List Item) (it : Item) : (specInsert l it).length = l.length + 1 := by
+  have := (specInsert_perm l it).length_eq
+  simpa using this
+
+theorem specPush_length (cap : Int) (l : List Item) (it : Item) (h : (l.length : Int) ≤ cap) :
+    ((specPush cap l it).1.length : Int) ≤ cap := by
+  unfold specPush
+  split
+  · exact h
+  · split
+    · split
+      · exact h
+      · rename_i tail hgl
+        split
+        · rw [specInsert_length, List.length_dropLast]
+          have : l ≠ [] := by intro e; rw [e] at hgl; simp at hgl
+          have : 0 < l.length := List.length_pos_iff.mpr this
+          omega
+        · exact h
+    · rw [specInsert_length]; omega
+
+theorem stepSpec_length (cap : Int) (l : List Item) (o : QOp) (h : (l.length : Int) ≤ cap) :
+    ((stepSpec cap l o).1.length : Int) ≤ cap := by
+  cases o with
+  | push it _ => exact specPush_length cap l it h
+  | remove k =>
+    have : (specRemove l k).length ≤ l.length := List.Sublist.length_le List.eraseP_sublist
+    show ((specRemove l k).length : Int) ≤ cap
+    omega
+
+theorem runSpec_length (cap : Int) (l : List Item) (ops : List QOp) (h : (l.length : Int) ≤ cap) :
+    (((runSpec cap l ops).1).length : Int) ≤ cap := by
+  induction ops generalizing l with
+  | nil => exact h
+  | cons o rest ih => exact ih _ (stepSpec_length cap l o h)
+
 end C24
